@@ -244,7 +244,7 @@ class PathEval:
         if k == "unop":
             return ("un", rv["op"], self.op(st, rv["o"]))
         if k == "agg":
-            if rv["ak"] == "tuple":
+            if rv["ak"] in ("tuple", "closure"):     # a closure value is the tuple of its captures
                 return ("tuple", tuple(self.op(st, o) for o in rv["ops"]))
             if rv["ak"] == "adt":
                 return ("adt", norm(rv["adt"]), rv.get("variant"), tuple(self.op(st, o) for o in rv["ops"]), tuple(rv.get("fields") or ()))
